@@ -3,7 +3,8 @@
    spec_ok  = what the implementation returned is the property's value, computed from the Spec
               definitions (windows of each row alone, little-endian value) and the generator's input only. *)
 From Coq Require Import ZArith List Bool.
-From BNP Require Export Base.Prims Model.C13.
+From BNP Require Export Base.Prims.
+From BNP Require Export Model.C13.
 Import ListNotations.
 Open Scope Z_scope.
 
@@ -30,9 +31,11 @@ Record case := {
 Definition nA (c : case) : Z := len (k_alpha c).
 Definition wn (c : case) : nat := Z.to_nat (k_w c).
 
-(* input inside the property's quantifier: letters in range, 1 <= w, total letters >= w, |A|^w < 2^63 *)
+(* input inside the property's quantifier: an alphabet of distinct letters, letters in range, 1 <= w, total letters >= w, |A|^w < 2^63 *)
+Fixpoint nodupb (l : list Z) : bool :=
+  match l with [] => true | x :: r => negb (existsb (Z.eqb x) r) && nodupb r end.
 Definition in_domain (c : case) : bool :=
-  (2 <=? nA c) && forallb (forallb (fun x => (0 <=? x) && (x <? nA c))) (k_rows c)
+  (2 <=? nA c) && nodupb (k_alpha c) && forallb (forallb (fun x => (0 <=? x) && (x <? nA c))) (k_rows c)
   && (1 <=? k_k c) && (k_k c <=? k_w c) && (k_w c <=? 31) && (k_w c <=? len (concat (k_rows c)))
   && (nA c ^ k_k c <? 2 ^ 63)
   && match k_op c with
